@@ -28,6 +28,7 @@ type ownPod struct {
 	Shape   string // "S-i", "S-x", "other-i", "S-i-j"
 	Term    bool
 	NoIdent bool // pod-name label missing
+	OtherNS bool // lives in another namespace (same name pattern, matching labels)
 }
 
 func (p ownPod) String() string {
@@ -48,6 +49,9 @@ func (p ownPod) String() string {
 	}
 	if p.NoIdent {
 		s += "/noident"
+	}
+	if p.OtherNS {
+		s += "/other-namespace"
 	}
 	return s
 }
@@ -182,7 +186,10 @@ func (c ownCase) Build(w *world.World) *world.State {
 			delete(p.Labels, "statefulset.kubernetes.io/pod-name")
 		}
 		p.Spec.Hostname = p.Name
-		st.API.Pods[p.Name] = p
+		if pc.OtherNS {
+			p.Namespace = "other"
+		}
+		st.API.Pods[world.ObjKey(p.Namespace, p.Name)] = p
 	}
 	set.Status.CurrentRevision = names[0]
 	set.Status.UpdateRevision = names[0]
@@ -228,6 +235,9 @@ func ownPodCells() []ownPod {
 				}
 				if shape == "S-i" && !nomatch {
 					out = append(out, ownPod{Present: true, Owner: owner, Shape: shape, NoIdent: true})
+					if owner == "" || owner == "none" {
+						out = append(out, ownPod{Present: true, Owner: owner, Shape: shape, OtherNS: true})
+					}
 				}
 			}
 		}
@@ -286,7 +296,11 @@ func ownGrid(apis []string, policies []string, paused bool, podDepth int, thorou
 					}
 				}
 			}
-			// (R) revisions: full product over three slots
+			// (R) revisions: full product over three slots (the revision logic does not depend on the pod
+			// management policy: first policy only)
+			if pol != policies[0] {
+				continue
+			}
 			rc := ownRevCells()
 			limits := []int32{0, 1, 10}
 			for _, lim := range limits {
@@ -326,7 +340,7 @@ func ownCheck(prop string, apis, policies []string, paused bool, differential bo
 	if prop == "C10" {
 		depth = 2
 	}
-	rep.Rule = fmt.Sprintf("ownership snapshot enumeration: set web (r=3, %v, RU p=0) plus a second set with the same selector; (P) pods at 3 ordinals, up to %d of them replaced by any cell of owner{this,none,other UID,other kind,non-controller ref} x labels{match,no match} x name{S-i,S-x,other-i,S-i-j} x terminating, or absent; (R) full product of three revision slots (data T1=the set's template, T2, T3) each absent or owner{this,none,other UID,other kind} x labels{selector,upgrade marker,both}, x revisionHistoryLimit{0,1,10} x pod-label pinning (none / one live pod / one terminating pod at another revision / all pods at another revision) x revision numbering (descending with age / all equal / reversed, i.e. a rollback pending); x API copy of the set %v; paused=%v. One real reconcile per snapshot. %s Non-trivial = at least one write or an error.", policies, depth, apis, paused, ruleText)
+	rep.Rule = fmt.Sprintf("ownership snapshot enumeration: set web (r=3, %v, RU p=0) plus a second set with the same selector; (P) pods at 3 ordinals, up to %d of them replaced by any cell of owner{this,none,other UID,other kind,non-controller ref} x labels{match,no match} x name{S-i,S-x,other-i,S-i-j} x terminating, also without the pod-name label and in another namespace, or absent; (R) full product of three revision slots (data T1=the set's template, T2, T3) each absent or owner{this,none,other UID,other kind} x labels{selector,upgrade marker,both}, x revisionHistoryLimit{0,1,10} x pod-label pinning (none / one live pod / one terminating pod at another revision / all pods at another revision) x revision numbering (descending with age / all equal / reversed, i.e. a rollback pending); x API copy of the set %v; paused=%v. One real reconcile per snapshot. %s Non-trivial = at least one write or an error.", policies, depth, apis, paused, ruleText)
 	rep.Assumptions = apiAssumptions
 	deadline := explore.Deadline(100*time.Second, 15*time.Minute)
 	judge := monitorOf(prop)
